@@ -25,6 +25,7 @@ def run(eng, ctx):
     SH.payload_slice(eng, ctx, "C01.D5")
     SH.single_consumer(eng, ctx, "C01.D6")
     SH.read_returns(eng, ctx, "C01.D7", m)
+    SH.assembler_result(eng, ctx, "C01.D8", m)
     SH.crc_transfer(eng, ctx, "C08.D1")
     SH.identity_bits(eng, ctx, "C15.D1")
     from .C07 import payload_verbatim
